@@ -82,10 +82,11 @@ fn valid_doc(r: &mut Rng) -> (Doc, String) {
             ..Profile::general()
         },
     };
+    let p = if r.chance(1, 40) { Profile::wide() } else { p };
     let p = Profile { n_docs: (1, 1), ..p };
     let docs = gen::random_history(r, &p, "b");
     let d = docs.into_iter().next().unwrap();
-    let s = if r.chance(1, 2) { Surface::plain() } else { Surface::seeded(r.next()) };
+    let s = if r.chance(1, 2) { Surface::plain() } else { Surface::seeded_with_lead(r.next()) };
     let t = gen::write_doc(&d, &s);
     (d, t)
 }
@@ -237,7 +238,7 @@ fn place_invalid_utf8(d: &Doc, r: &mut Rng) -> (Vec<u8>, &'static str) {
         });
     }
     d.root.normalize();
-    let text = gen::write_doc(&d, &Surface { seed: r.next(), empty_style: 1, fancy: false });
+    let text = gen::write_doc(&d, &Surface { seed: r.next(), empty_style: 1, fancy: false, lead: 0 });
     let bad: &[u8] = *r.pick(&[&b"\xFF"[..], b"\xC3", b"\xE2\x82", b"\xC0\xAF", b"\xED\xA0\x80"]);
     let mut out = Vec::new();
     let m = MARK.to_string();
@@ -745,6 +746,19 @@ fn c07_calls(case: &ByteCase, rep: &mut Report) {
         Ok(Ok(tree)) => {
             rep.count("parse_ok");
             render_all(&tree, rep, "into_struct");
+            // the SAME tree, already rendered, is extended and rendered again (state cached in the tree by
+            // a rendering must not break a later one)
+            if let Some(b) = &case.base_hex {
+                let more = unhex(b);
+                match guarded(|| real::extend_bytes(&more, ReaderKind::Slice, Cfg::default(), tree.clone())) {
+                    Err(p) => rep.violation("panic:extend-after-render", format!("extend_struct panicked on a tree that had been rendered: {}", p), case.to_json()),
+                    Ok(Ok(t2)) => {
+                        rep.count("render_extend_render_sequences");
+                        render_all(&t2, rep, "into_struct, to_serde_struct, extend_struct");
+                    }
+                    Ok(Err(_)) => {}
+                }
+            }
         }
         Ok(Err(e)) => {
             rep.count("parse_err");
